@@ -1,4 +1,6 @@
 """C18 — at most one open Database per directory: ordering clauses (DESIGN §4 C18)."""
+import re
+
 from order import M, names
 from common import AnchorMissing
 
@@ -105,6 +107,40 @@ def run(ctx, chk):
     bad, n = O.only_callers(M(r"std::fs::File::unlock"), set())
     chk.oblige("B18.3 only_callers(File::unlock) = {} [%d sites]" % n, not bad, detail={"offenders": bad},
                key="B18.3|only_callers|File::unlock", msg="nobody releases the advisory lock early")
+    # B18.5 the locked descriptors are never duplicated (a dup shares the lock and outlives the Database)
+    dups = [(bid, b) for bid, root, b in O.callers_of(M(r"std::fs::File::try_clone|.*::dup\w*|.*BorrowedFd.*::try_clone_to_owned"))
+            if P.bodies[bid].krate == "rawdb"]
+    chk.oblige("B18.5 rawdb never duplicates a file descriptor (File::try_clone / dup)", not dups,
+               detail={"sites": dups}, key="B18.5|only_callers|File::try_clone",
+               msg="a duplicate of the locked data/regions descriptor keeps the advisory lock alive after every handle of "
+                   "the Database is gone")
+    # B18.6 a refused open leaves the files alone: on the failure edge of try_lock nothing (including drop glue of
+    # scope guards) reaches a file-system mutation
+    fsmut = re.compile(r"std::fs::(remove_file|remove_dir|remove_dir_all|write|rename)|std::fs::File::(set_len|sync_all|sync_data)")
+    for fn, body in ((OPEN, O.body(OPEN)), (ROPEN, O.body(ROPEN))):
+        TL = M(r"std::fs::File::try_lock")
+        tl = O.sites(body, TL)
+        bad = []
+        if True:
+            fail_region = O.failure_region(body, TL)
+            for x in fail_region:
+                t = body.blocks[x]["term"]
+                if t["k"] == "call":
+                    nm = names(t)
+                    kind, tg = P.resolve(t["callee"])
+                    hit = any(fsmut.fullmatch(n) for n in nm) or (kind == "ws" and any(
+                        any(fsmut.fullmatch(r) for r in O.reach(g)) for g in tg))
+                    if hit:
+                        bad.append(t.get("span"))
+                elif t["k"] == "drop":
+                    for adt in t.get("owners", []):
+                        for d in P.drop_bodies(adt):
+                            if any(fsmut.fullmatch(r) for r in O.reach(d)):
+                                bad.append("drop of %s at %s" % (adt, t.get("span")))
+        chk.oblige("B18.6 %s: nothing on the refusal path (incl. drop glue) touches the file system [%d blocks on the "
+                   "failure edge of try_lock]" % (fn, len(fail_region)), bool(tl) and bool(fail_region) and not bad,
+                   detail={"sites": bad}, key="B18.6|%s|refusal-path-mutates" % fn,
+                   msg="a refused open must neither modify nor remove the holder's files")
     # B18.4 the last handle's drop waits for background work, and background work does not keep the instance alive
     drop = O.body("<rawdb::Database as core::ops::drop::Drop>::drop")
     r = O.reach(drop.id)
